@@ -154,13 +154,14 @@ type Sim struct {
 	deadNode map[string]bool
 	wake     chan struct{}
 
-	step      int
-	tapeIdx   int
-	rng       *rand.Rand
-	aux       *rand.Rand
-	Choices   []uint32
-	faultHits []int
-	crashDone []bool
+	step           int
+	tapeIdx        int
+	rng            *rand.Rand
+	aux            *rand.Rand
+	Choices        []uint32
+	faultHits      []int
+	hasSchedFaults bool
+	crashDone      []bool
 
 	hash      uint64
 	sig       uint64 // schedule signature: contended steps and fired faults only
@@ -272,6 +273,14 @@ func Run(t *testing.T, c *Case, keepTrace bool, setup func(s *Sim), finish func(
 		deadNode:   map[string]bool{},
 		crashHooks: map[string]func(){},
 		faultHits:  make([]int, len(c.Faults)),
+		hasSchedFaults: func() bool {
+			for _, f := range c.Faults {
+				if strings.HasPrefix(f.Op, "sched.") {
+					return true
+				}
+			}
+			return false
+		}(),
 		crashDone:  make([]bool, len(c.Faults)),
 		rng:        rand.New(rand.NewPCG(c.SchedSeed, 0x9e3779b97f4a7c15)),
 		aux:        rand.New(rand.NewPCG(c.Seed, 0xabcdef12345)),
@@ -1120,8 +1129,25 @@ func Lock(m *sync.Mutex, site string) {
 		s.dyingLock(t, k, m.TryLock)
 		return
 	}
+	s.maybeStall(t, site)
 	s.park(t, &entry{kind: kLock, site: site, lk: k})
 	m.Lock()
+}
+
+// maybeStall implements the "sched.stall" fault: a task about to take a lock is held back for a while
+// (a goroutine that is not scheduled, a GC pause), which lets other tasks get in before it. Fault fields:
+// Op "sched.lock", Key = substring of the lock site, Arg = duration in ns.
+func (s *Sim) maybeStall(t *Task, site string) {
+	if !s.hasSchedFaults {
+		return
+	}
+	s.mu.Lock()
+	f, arg := s.faultFor("sched.lock", site)
+	s.mu.Unlock()
+	if f != "sched.stall" || arg <= 0 {
+		return
+	}
+	s.park(t, &entry{kind: kSleep, site: "sched.stall", ready: time.Now().Add(time.Duration(arg))})
 }
 
 // Unlock is the woven replacement of (*sync.Mutex).Unlock.
@@ -1180,6 +1206,7 @@ func WLock(m *sync.RWMutex, site string) {
 		s.dyingLock(t, k, m.TryLock)
 		return
 	}
+	s.maybeStall(t, site)
 	s.park(t, &entry{kind: kLock, site: site, lk: k})
 	m.Lock()
 }
@@ -1213,6 +1240,7 @@ func RLock(m *sync.RWMutex, site string) {
 		s.dyingLock(t, k+1, m.TryRLock)
 		return
 	}
+	s.maybeStall(t, site)
 	s.park(t, &entry{kind: kRLock, site: site, lk: k})
 	m.RLock()
 }
